@@ -31,7 +31,7 @@ REQUIRED = [
     ("liquid/extra/tags/macro_tag.py", "CallNode.render_to_output"),
     ("liquid/ast.py", "Node.raise_for_disabled"),
 ]
-MIN_COUNTERS = {"copy_hook_checks": 200, "disabled_include_probes": 50, "disabled_include_probes_nested": 30, "variants_with_call_inside_caller_loop": 200, "argument_visibility_probes": 90, "nested_render_probes": 20}
+MIN_COUNTERS = {"copy_hook_checks": 200, "disabled_include_probes": 50, "disabled_include_probes_nested": 30, "variants_with_call_inside_caller_loop": 200, "argument_visibility_probes": 90, "nested_render_probes": 20, "disabled_include_probes_in_lax_or_warn": 30}
 
 HOOK: dict[str, Any] = {"copies": 0, "leak": None}
 
@@ -286,13 +286,21 @@ def judge(ctx: core.Ctx, case: dict[str, Any]) -> None:
         inc = "{% include 'q' %}"
         for w in wrappers:
             inc = WRAP[w].replace("@", inc)
-        env = drv.make_env({"extra": True}, loader=DictLoader({"p": "x" + inc, "q": "inner", "mid": "{% render 'p' %}", "pbase": "[{% block b %}{% endblock %}]",
+        pmode = case.get("include_mode", "strict")
+        env = drv.make_env({"extra": True, "mode": pmode}, loader=DictLoader({"p": "x" + inc, "q": "inner", "mid": "{% render 'p' %}", "pbase": "[{% block b %}{% endblock %}]",
                                                                "pchild": "{% extends 'pbase' %}{% block b %}" + inc + "{% endblock %}"}), base=MonEnv)
         o = drv.parse_and_render(env, case.get("include_call") or "{% render 'p' %}", {"items": [1, 2]}, use_async=case.get("async", False))
         ctx.count("disabled_include_probes")
         if wrappers:
             ctx.count("disabled_include_probes_nested")
-        if o.ok or o.err_class != "DisabledTagError":
+        if pmode != "strict":
+            # lax / warn suppress the error and go on - but the include itself must still not run
+            ctx.count("disabled_include_probes_in_lax_or_warn")
+            if o.ok and "inner" in o.value:
+                ctx.evaluations += 1
+                ctx.violation(f"render:include-runs-in-{pmode}-mode", f"{pmode} mode: include inside a rendered partial ({'x' + inc!r}, called by {case.get('include_call')!r}) was executed: output {o.value!r:.120}")
+                return
+        elif o.ok or o.err_class != "DisabledTagError":
             ctx.evaluations += 1
             ctx.violation(
                 "render:include-not-disabled" + (":inside-inherited-block" if "pchild" in str(case.get("include_call")) else ":nested-in-block" if wrappers else ""),
@@ -364,7 +372,7 @@ def gen_case(rng) -> dict[str, Any]:
     return {"kind": kind, "call_kind": ck, "call": call, "body": gen_body(rng), "mid_loop": rng.random() < 0.5, "globals": globals_, "variants": variants,
             "probe_disabled": rng.random() < 0.25, "include_wrappers": wrappers,
             "include_call": rng.choice(["{% render 'p' %}", "{% render 'p' for items %}", "{% render 'mid' %}", "{% for i in (1..2) %}{% render 'p' with i as v %}{% endfor %}", "{% render 'pchild' %}"]),
-            "async": rng.random() < 0.3}
+            "include_mode": rng.choice(["strict", "strict", "lax", "warn"]), "async": rng.random() < 0.3}
 
 
 def cases(ctx: core.Ctx):
